@@ -332,4 +332,5 @@ package cisco
 // (appended, not overwritten; also lines with a trailing option), so that
 // markNeeded protects all ACLs of that interface (structural guard).
 //vc:func (*State).checkASAInterfaces$1
+//vc:  ensures result != nil
 //vc:  assert[C07] at "m[tokens[4]] = append(m[tokens[4]], c)" @everyAccessGroupRecorded len(tokens) >= 5 && tokens[3] == "interface"
